@@ -36,14 +36,20 @@ Shape(h, r) == [content |-> h[r].content, kids |-> [seg \in DOMAIN h[r].kids |->
 
 Retag(id, tag) == <<tag>> \o Tail(id)
 
+\* Seeded mutations of CloneSchemas (MUT_Clone = "none": the code as it is; the others must be refuted by TLC):
+\*   "shareEmptyChild"  an empty schema under a single-schema keyword looks like an absent keyword: not cloned
+\*   "shallowSeqElems"  the elements of schema arrays are copied, what hangs below them is not
+CONSTANT MUT_Clone
+IsEmptyNode(n) == DOMAIN n.content = {} /\ DOMAIN n.kids = {}
 \* CloneSchemas over the field table
 RECURSIVE CloneNodes(_, _, _, _)
 CloneNodes(h, r, tag, fields) ==
   LET n == h[r]
-      cloned == {seg \in DOMAIN n.kids : seg.k \in fields}
+      cloned == {seg \in DOMAIN n.kids : /\ seg.k \in fields
+                                         /\ ~(MUT_Clone = "shareEmptyChild" /\ seg.k \in SingleKW /\ IsEmptyNode(h[n.kids[seg]]))}
       me == [id |-> Retag(r, tag), content |-> n.content,
              kids |-> [seg \in DOMAIN n.kids |-> IF seg \in cloned THEN Retag(n.kids[seg], tag) ELSE n.kids[seg]]]
-  IN {me} \cup UNION {CloneNodes(h, n.kids[seg], tag, fields) : seg \in cloned}
+  IN {me} \cup UNION {CloneNodes(h, n.kids[seg], tag, IF MUT_Clone = "shallowSeqElems" /\ seg.k \in SeqKW THEN {} ELSE fields) : seg \in cloned}
 
 Clone(h, r, tag, fields) ==
   LET ns == CloneNodes(h, r, tag, fields)
